@@ -29,6 +29,7 @@ def run(rep):
         core = [s for s in fam if s['name'].split('/')[0] in ('chain3', 'rejoin2', 'tee', 'join2', 'chain3start')][:24]
         explore.explore(rep, 'core-d2', core, 2, ['fifo'], 'checks.oracles:oracle_c03', budget_s=1500)
 
+    rep.assumption('distinct_nontrivial = executions with pairwise different timed wire traces (every message sent / delivered / dropped with its virtual time), per scenario; distinct_outcomes = distinct per-filter process() input sequences per scenario')
     rep.set('traces_validated_against_impl', rep.coverage.get('evaluations', 0))
-    rep.set('distinct_nontrivial', rep.coverage.get('distinct_outcomes', 0))
+    rep.set('distinct_nontrivial', rep.coverage.get('distinct_timed_wire_traces', 0))
     rep.set('exhaustive', not rep.capped)
